@@ -246,6 +246,94 @@ pub fn child(args: &[String]) -> i32 {
             c
         });
     }
+    // the Map / Set wrappers over the same bytes: opening and point lookups allocate nothing,
+    // their streams and operations stay within the same bounds as the raw ones
+    measure!("open_map_and_set_over_slices", {
+        let m = fst::Map::new(&files[1][..]).unwrap();
+        let st = fst::Set::new(&files[1][..]).unwrap();
+        let c = Fst::new(std::borrow::Cow::Borrowed(&files[1][..])).unwrap();
+        (m.len() + st.len() + c.len()) as u64
+    });
+    let wm = fst::Map::new(&files[0][..]).unwrap();
+    let ws = fst::Set::new(&files[0][..]).unwrap();
+    let wms: Vec<fst::Map<&[u8]>> = files.iter().map(|b| fst::Map::new(&b[..]).unwrap()).collect();
+    let wss: Vec<fst::Set<&[u8]>> = files.iter().map(|b| fst::Set::new(&b[..]).unwrap()).collect();
+    measure!("point_lookups_map_set", {
+        let mut hits = 0u64;
+        for i in 0..1000u64 {
+            let k = first_key.clone_from_slice_noalloc(i);
+            hits += wm.get(&k.0[..k.1]).is_some() as u64 + wm.contains_key(&k.0[..k.1]) as u64 + ws.contains(&k.0[..k.1]) as u64;
+        }
+        hits += wm.get(&first_key).is_some() as u64 + ws.contains(&first_key) as u64 + wm.len() as u64 + ws.is_empty() as u64 + wm.as_fst().size() as u64;
+        hits
+    });
+    measure!("map_stream_keys_values", {
+        let mut c = 0u64;
+        let mut s = wm.stream();
+        while let Some(_) = s.next() {
+            c += 1;
+        }
+        let mut s = wm.keys();
+        while let Some(_) = s.next() {
+            c += 1;
+        }
+        let mut s = wm.values();
+        while let Some(_) = s.next() {
+            c += 1;
+        }
+        c
+    });
+    measure!("set_stream_range_search", {
+        let mut c = 0u64;
+        let mut s = ws.stream();
+        while let Some(_) = s.next() {
+            c += 1;
+        }
+        let mut s = ws.range().ge(&mid_lo).lt(&mid_hi).into_stream();
+        while let Some(_) = s.next() {
+            c += 1;
+        }
+        let mut s = ws.search(Subsequence::new("ab")).into_stream();
+        while let Some(_) = s.next() {
+            c += 1;
+        }
+        c
+    });
+    measure!("map_search_with_state_and_bounds", {
+        let mut s = wm.search_with_state(Subsequence::new("ba")).ge(&mid_lo).into_stream();
+        let mut c = 0u64;
+        while let Some(_) = s.next() {
+            c += 1;
+        }
+        c
+    });
+    measure!("map_union_k3", {
+        let mut s = wms[..3].iter().collect::<fst::map::OpBuilder>().union();
+        let mut c = 0u64;
+        while let Some(_) = s.next() {
+            c += 1;
+        }
+        c
+    });
+    measure!("set_ops_k3", {
+        let mut c = 0u64;
+        let mut s = wss[..3].iter().collect::<fst::set::OpBuilder>().symmetric_difference();
+        while let Some(_) = s.next() {
+            c += 1;
+        }
+        let mut s = wss[0].op().add(&wss[0]).add(&wss[0]).intersection();
+        while let Some(_) = s.next() {
+            c += 1;
+        }
+        let mut s = wss[..3].iter().collect::<fst::set::OpBuilder>().difference();
+        while let Some(_) = s.next() {
+            c += 1;
+        }
+        c
+    });
+    measure!("set_predicates_k2", {
+        (wss[0].is_disjoint(&wss[1]) as u64) + (wss[0].is_subset(&wss[0]) as u64) * 2 + (wss[0].is_superset(&wss[0]) as u64) * 4 + (f.is_subset(f) as u64) * 8 + wss[0].len() as u64
+    });
     let _ = std::fs::remove_file(&path);
     println!("{}", Value::Object(out));
     0
@@ -269,7 +357,7 @@ impl ProbeKey for Vec<u8> {
     }
 }
 
-const ZERO_ALLOC_OPS: [&str; 4] = ["open_slice", "open_mmap_ref", "point_lookups", "point_lookups_bushy"];
+const ZERO_ALLOC_OPS: [&str; 6] = ["open_slice", "open_mmap_ref", "point_lookups", "point_lookups_bushy", "open_map_and_set_over_slices", "point_lookups_map_set"];
 
 pub fn check(sizes: &(u64, u64, u64), rec: &mut Rec) -> Result<Value, Fail> {
     let (small_n, big_n, seed) = *sizes;
@@ -324,7 +412,7 @@ fn run_child2(n: u64, seed: u64) -> Result<Value, Fail> {
 }
 
 pub fn run(e: &Engine) {
-    e.set_rule("cases are (operation, k, FST size): in single-threaded child processes with a counting allocator, FSTs of two sizes (keys <= 32 bytes) are built, then for each of stream, range, search (Subsequence, StartsWith(Str), generated DFA with bounds), search_with_state and union/intersection/difference/symmetric_difference over k in {2,3,8} FSTs the peak extra heap from before into_stream() to exhaustion is measured; violation iff peak(large) > 1.10 * peak(small) + 4 KiB or above a generous k-proportional cap; Fst::new over a borrowed slice and over mapped bytes, get, contains_key, len must perform zero allocations; evaluations counts (operation, size pair); non-trivial = traversal emitting >= 10^4 items; distinct by (operation, k, N)");
+    e.set_rule("cases are (operation, k, FST size): in single-threaded child processes with a counting allocator, FSTs of two sizes (keys <= 32 bytes) are built, then for each of stream, range, search (Subsequence, StartsWith(Str), generated DFA with bounds), search_with_state and union/intersection/difference/symmetric_difference over k in {2,3,8} FSTs the peak extra heap from before into_stream() to exhaustion is measured; violation iff peak(large) > 1.10 * peak(small) + 4 KiB or above a generous k-proportional cap; Fst::new / Map::new / Set::new over borrowed slices, a Cow and mapped bytes, get, contains_key, contains, len must perform zero allocations; the Map/Set streams (stream, keys, values, range, search, search_with_state), their OpBuilders and the subset/disjoint predicates are measured like the raw ones; evaluations counts (operation, size pair); non-trivial = traversal emitting >= 10^4 items; distinct by (operation, k, N)");
     e.assume("finitely many N; tolerances calibrated on the pinned tree (stream 2.6 kB, 3-way union 8.6 kB, identical at 10^4 and 10^6 keys)");
     let pairs: Vec<(u64, u64, u64)> = match e.tier {
         crate::engine::Tier::Quick => vec![(10_000, 400_000, e.seed), (20_000, 200_000, e.seed ^ 9)],
